@@ -29,6 +29,7 @@ type replayer struct {
 	err     error
 	buildS  float64
 	overlay string
+	known   string // listed known-finding ids, comma separated
 }
 
 func newReplayer(repo, hdir string) (*replayer, error) {
@@ -138,8 +139,9 @@ func tail(s string, n int) string {
 }
 
 type replayResult struct {
-	Outcome  string
-	Observed []string
+	Outcome    string
+	KnownFails []string
+	Observed   []string
 	Reached  []string
 	Raw      string
 }
@@ -169,7 +171,7 @@ func (r *replayer) run(harness string, tape map[string]uint64, tier int) (*repla
 	defer os.Remove(tp)
 	cmd := exec.Command(r.bin, "-test.run", "^TestVPReplay$", "-test.count=1", "-test.timeout=120s")
 	cmd.Dir = r.repo
-	cmd.Env = append(os.Environ(), "VP_TAPE="+tp, "VP_HARNESS="+harness)
+	cmd.Env = append(os.Environ(), "VP_TAPE="+tp, "VP_HARNESS="+harness, "VP_KNOWN="+r.known)
 	var out bytes.Buffer
 	cmd.Stdout = &out
 	cmd.Stderr = &out
@@ -181,6 +183,8 @@ func (r *replayer) run(harness string, tape map[string]uint64, tier int) (*repla
 			res.Outcome = strings.TrimPrefix(line, "VPRESULT outcome=")
 		case strings.HasPrefix(line, "VPOBS "):
 			res.Observed = append(res.Observed, strings.TrimPrefix(line, "VPOBS "))
+		case strings.HasPrefix(line, "VPKNOWNFAIL "):
+			res.KnownFails = append(res.KnownFails, strings.TrimPrefix(line, "VPKNOWNFAIL "))
 		case strings.HasPrefix(line, "VPREACH "):
 			res.Reached = append(res.Reached, strings.TrimPrefix(line, "VPREACH "))
 		}
